@@ -279,6 +279,8 @@ def run(rep, tier):
         elif o.code != 103 or o.out != b"" or not HDR1.match(o.err.decode("utf-8", "replace")):
             rep.violation("C03/parse-before-run", "a file with a lexical/syntax error must not run any statement and must be rejected with one located line: exit %s stdout %r stderr %r" % (o.code, o.out[:60], o.err[:120]),
                           {"src": t, "observed": o.brief(), "expected": {"exit": 103, "stdout": ""}})
+    from .. import rawfiles
+    rawfiles.run(rep, PROP)
     # long flat inputs: the scanner and parser must not recurse per token / per skipped line
     N = 60000 if tier == "quick" else 400000
     long_inputs = [
